@@ -178,8 +178,8 @@ func (vc *VC) mkCallInfo(c *ssa.CallCommon, ins ssa.Instruction, value ssa.Value
 		ci.args = append(ci.args, sval{term: vc.val(a), typ: a.Type()})
 		ci.argVals = append(ci.argVals, a)
 	}
-	if fn == nil && !c.IsInvoke() {
-		// dynamic call: closure made in this function?
+	if !c.IsInvoke() {
+		// closure made in this function?
 		if mc, ok := c.Value.(*ssa.MakeClosure); ok {
 			ci.fn = mc.Fn.(*ssa.Function)
 			ci.name = CanonName(ci.fn)
@@ -333,7 +333,10 @@ func (vc *VC) callEffect(ci *callInfo, fc *FuncContract) {
 		}
 	}
 	ak := vc.allocKey()
+	inferred := (fc == nil || !fc.HasMod) && ci.fn != nil && vc.P.InRepo(FuncPkgPath(ci.fn)) && vc.inferPure(ci.fn)
 	switch {
+	case inferred:
+		post.havocKeys[ak] = true
 	case fc != nil && fc.Pure:
 		if fc.Allocates {
 			post.havocKeys[ak] = true
@@ -346,6 +349,13 @@ func (vc *VC) callEffect(ci *callInfo, fc *FuncContract) {
 		for _, m := range fc.Modifies {
 			if m == "*" {
 				post.havocHeap, post.havocGhst, post.havocLocal = true, true, true
+			} else if strings.HasPrefix(m, "reachable ") {
+				// only what is reachable from the argument changes. When the argument is the address of a
+				// local variable of this function (zero-valued so far), that is the local itself plus fresh objects.
+				if !vc.reachableLocalHavoc(ci, fc, strings.TrimSpace(m[10:]), post, pre) {
+					post.havocHeap = true
+					post.keepPats = fc.Preserves
+				}
 			} else if m == "heap" {
 				post.havocHeap = true
 				post.keepPats = fc.Preserves
@@ -409,6 +419,47 @@ func (vc *VC) errorsAsFacts(ci *callInfo, res []string) {
 	vc.assume(fmt.Sprintf("(=> %s (not (= (select %s %s) 0)))", res[0], vc.st.get(k), vc.val(mi.X)))
 }
 
+// reachableLocalHavoc implements "modifies reachable <param>" for an argument that is &local.
+func (vc *VC) reachableLocalHavoc(ci *callInfo, fc *FuncContract, param string, post, pre *state) bool {
+	env := vc.calleeEnv(ci, fc, pre, pre)
+	v, ok := env.vars[param]
+	if !ok {
+		return false
+	}
+	idx := -1
+	for i, a := range ci.args {
+		if a.term == v.term {
+			idx = i
+		}
+	}
+	if idx < 0 || idx >= len(ci.argVals) {
+		return false
+	}
+	av := ci.argVals[idx]
+	if mi, isMI := av.(*ssa.MakeInterface); isMI {
+		av = mi.X
+	}
+	al, isAlloc := av.(*ssa.Alloc)
+	if !isAlloc {
+		return false
+	}
+	ref := vc.val(al)
+	for _, key := range vc.zeroKeys(deref(al.Type())) {
+		old := pre.get(key)
+		if cur, set := post.vals[key]; set {
+			old = cur
+		}
+		fresh := vc.freshConst("reach", sortOfKey(vc.keyMeta(key)))
+		nw := vc.storeT(old, ref, fresh)
+		if ci.guard != "" {
+			nw = fmt.Sprintf("(ite %s %s %s)", ci.guard, nw, old)
+		}
+		post.set(key, nw)
+	}
+	vc.usedContracts["frame rule: a local passed by address to "+ci.name+" holds no pointers to older objects (it is zero-valued)"] = true
+	return true
+}
+
 func sortOfKey(m keyMeta) string {
 	// "(Array Int X)" -> X
 	s := strings.TrimPrefix(m.Sort, "(Array Int ")
@@ -439,7 +490,9 @@ func (vc *VC) callFrameCheck(ci *callInfo, fc *FuncContract) {
 		return false
 	}
 	var bad []string
+	inferred := (fc == nil || !fc.HasMod) && ci.fn != nil && vc.P.InRepo(FuncPkgPath(ci.fn)) && vc.inferPure(ci.fn)
 	switch {
+	case inferred:
 	case fc == nil:
 		if !has("*") && !has("heap") {
 			bad = append(bad, "callee "+ci.name+" has no contract (heap unknown afterwards)")
@@ -739,8 +792,7 @@ func (vc *VC) builtin(ins *ssa.Call, b *ssa.Builtin) {
 			vc.define(ins, fmt.Sprintf("(slen %s)", x))
 		case *types.Map:
 			d, _ := vc.mapKeys(t)
-			n := vc.define(ins, fmt.Sprintf("(mlen_%s (select %s %s))", "row", vc.st.get(d), x))
-			_ = n
+			vc.define(ins, fmt.Sprintf("(maplen (select %s %s))", vc.st.get(d), x))
 		case *types.Array:
 			vc.define(ins, fmt.Sprint(t.Len()))
 		case *types.Pointer:
